@@ -19,3 +19,26 @@ package handshake
 //@   callback FinishedFunc requires magic: old(c.config.ProtocolVersionMap[m.Version]) != nil ==>
 //@       arg2.NetworkMagic() == old(c.config.ProtocolVersionMap[m.Version]).NetworkMagic()
 //@   ensures completes: err == nil ==> called(FinishedFunc)
+
+// C18: the responder accepts (sends MsgAcceptVersion and invokes the finished callback) only with
+// the highest version that is both proposed and supported, and only when the proposed data for it
+// decoded and carries the responder's network magic for that version.
+//@ func (s *Server) handleProposeVersions(msg) (err)
+//@   props C18
+//@   attr trackcalls on
+//@   requires typed: s != nil && dyn(msg) == type(*MsgProposeVersions)
+//@   let m = unbox(msg, type(*MsgProposeVersions))
+//@   callback FinishedFunc requires common: old(arg1 in m.VersionMap) && old(arg1 in s.config.ProtocolVersionMap)
+//@   callback FinishedFunc requires best: forall v uint16 :: old(v in m.VersionMap) && old(v in s.config.ProtocolVersionMap) ==> v <= arg1
+//@   callback FinishedFunc requires magic: arg2 != nil && old(s.config.ProtocolVersionMap[arg1]) != nil &&
+//@       arg2.NetworkMagic() == old(s.config.ProtocolVersionMap[arg1]).NetworkMagic()
+//@   callback FinishedFunc requires decoded: called(NewVersionDataFromCborFunc) && callres(NewVersionDataFromCborFunc, 1) == nil &&
+//@       arg2 == callres(NewVersionDataFromCborFunc, 0) && callarg(NewVersionDataFromCborFunc, 0) == old(m.VersionMap[arg1])
+//@   callback call:NewMsgAcceptVersion requires same: old(arg0 in m.VersionMap) && old(arg0 in s.config.ProtocolVersionMap) &&
+//@       forall v uint16 :: old(v in m.VersionMap) && old(v in s.config.ProtocolVersionMap) ==> v <= arg0
+//@   ensures completes: err == nil ==> called(FinishedFunc)
+//@   loop 1 invariant forall i int :: 0 <= i && i < len(versionIntersect) ==> versionIntersect[i] in m.VersionMap && versionIntersect[i] in s.config.ProtocolVersionMap
+//@   loop 1 invariant forall v uint16 :: visited[v] && v in s.config.ProtocolVersionMap ==> exists i int :: 0 <= i && i < len(versionIntersect) && versionIntersect[i] == v
+//@   loop 3 invariant rangeindex < len(versionIntersect) && (rangeindex == -1 ==> proposedVersion == 0)
+//@   loop 3 invariant rangeindex >= 0 ==> exists i int :: 0 <= i && i <= rangeindex && versionIntersect[i] == proposedVersion
+//@   loop 3 invariant forall i int :: 0 <= i && i <= rangeindex ==> versionIntersect[i] <= proposedVersion
